@@ -38,6 +38,11 @@ fn acodec(s: &str) -> AudioCodec {
     }
 }
 
+fn vres(r: &validation::ValidationResult) -> String {
+    let _ = format!("{:?}", r.clone());
+    format!("{}/{}/{}", if r.is_valid { 1 } else { 0 }, r.messages.len(), r.errors.len())
+}
+
 pub fn run_x(rest: &str) -> String {
     let t: Vec<&str> = rest.split_whitespace().collect();
     let arg = |i: usize| -> Vec<u8> { unhex(t.get(i).copied().unwrap_or("-")) };
@@ -156,14 +161,14 @@ pub fn run_x(rest: &str) -> String {
                 t[3].parse().unwrap(),
                 f64::from_bits(u64::from_str_radix(t[4], 16).unwrap()),
             );
-            b(r.is_valid)
+            vres(&r)
         }
         "validate_audio_config" => {
             let r = validation::validate_audio_config(acodec(t[1]), t[2].parse().unwrap(), t[3].parse().unwrap());
-            b(r.is_valid)
+            vres(&r)
         }
-        "validate_video_frame" => b(validation::validate_video_frame(vcodec(t[1]), &arg(2), t[3] == "1").is_valid),
-        "validate_audio_frame" => b(validation::validate_audio_frame(acodec(t[1]), &arg(2)).is_valid),
+        "validate_video_frame" => vres(&validation::validate_video_frame(vcodec(t[1]), &arg(2), t[3] == "1")),
+        "validate_audio_frame" => vres(&validation::validate_audio_frame(acodec(t[1]), &arg(2))),
         "validate_muxing" => {
             let vc = validation::VideoValidationConfig {
                 codec: if t[1] == "~" { None } else { Some(vcodec(t[1])) },
@@ -178,7 +183,105 @@ pub fn run_x(rest: &str) -> String {
                 channels: if t[9] == "~" { None } else { Some(t[9].parse().unwrap()) },
                 sample_frame: if t[10] == "~" { None } else { Some(unhex(t[10])) },
             };
-            b(validation::validate_muxing_config(vc, ac).is_valid)
+            vres(&validation::validate_muxing_config(vc, ac))
+        }
+        "muxer_config" => {
+            // MuxerConfig: plain data built by fluent calls
+            let mut c = muxide::api::MuxerConfig::new(
+                t[1].parse().unwrap(),
+                t[2].parse().unwrap(),
+                f64::from_bits(u64::from_str_radix(t[3], 16).unwrap()),
+            );
+            if t[4] != "~" {
+                c = c.with_audio(acodec(t[4]), t[5].parse().unwrap(), t[6].parse().unwrap());
+            }
+            c = c.with_fast_start(t[7] == "1");
+            if t[8] == "1" {
+                c = c.with_metadata(muxide::api::Metadata::new().with_title("t"));
+            }
+            let _ = format!("{:?}", c.clone());
+            let a = match &c.audio {
+                None => "none".to_string(),
+                Some(a) => format!("{}:{}:{}", t[4], a.sample_rate, a.channels),
+            };
+            format!(
+                "{}/{}/{:016x}/{}/{}/{}",
+                c.width,
+                c.height,
+                c.framerate.to_bits(),
+                a,
+                if c.fast_start { 1 } else { 0 },
+                if c.metadata.is_some() { 1 } else { 0 }
+            )
+        }
+        "plain_ctors" => {
+            // public constructors / accessors of the plain configuration records
+            let a = h264::AvcConfig::new(arg(1), arg(2));
+            let b2 = h265::HevcConfig::new(arg(2), arg(1), arg(2));
+            let v = validation::ValidationResult::invalid(vec!["e".to_string()]);
+            let _ = format!("{:?} {:?} {:?}", a.clone(), b2.clone(), v.clone().with_message("m".into()));
+            format!(
+                "{}/{}/{}/{}/{}/{}/{}/{}/{}/{}",
+                hex(&a.sps),
+                hex(&b2.pps),
+                if v.is_valid { 1 } else { 0 },
+                a.profile_idc(),
+                a.profile_compatibility(),
+                a.level_idc(),
+                b2.general_profile_space(),
+                if b2.general_tier_flag() { 1 } else { 0 },
+                b2.general_profile_idc(),
+                b2.general_level_idc()
+            )
+        }
+        "metadata_now" => {
+            // reads the wall clock by design; only "a time after 2020 was stored" is observed
+            let m = muxide::api::Metadata::new().with_current_time();
+            match m.creation_time {
+                Some(x) if x > 1_577_836_800 => "some".into(),
+                _ => "none".into(),
+            }
+        }
+        "error_display" => {
+            // Display/Debug of every public error variant with extreme field values (C12)
+            use muxide::api::MuxerError as E;
+            let x = f64::from_bits(u64::from_str_radix(t[1], 16).unwrap());
+            let n = x.to_bits();
+            let es = vec![
+                E::MissingVideoConfig,
+                E::AlreadyFinished,
+                E::NegativeVideoPts { pts: x, frame_index: n },
+                E::NegativeVideoDts { dts: x, frame_index: n },
+                E::InvalidVideoPts { pts: x, frame_index: n },
+                E::InvalidVideoDts { dts: x, frame_index: n },
+                E::NegativeAudioPts { pts: x, frame_index: n },
+                E::InvalidAudioPts { pts: x, frame_index: n },
+                E::AudioNotConfigured,
+                E::EmptyAudioFrame { frame_index: n },
+                E::EmptyVideoFrame { frame_index: n },
+                E::NonIncreasingVideoPts { prev_pts: x, curr_pts: -x, frame_index: n },
+                E::DecreasingAudioPts { prev_pts: x, curr_pts: -x, frame_index: n },
+                E::AudioBeforeFirstVideo { audio_pts: x, first_video_pts: Some(x) },
+                E::AudioBeforeFirstVideo { audio_pts: x, first_video_pts: None },
+                E::FirstVideoFrameMustBeKeyframe,
+                E::FirstVideoFrameMissingSpsPps,
+                E::FirstAv1FrameMissingSequenceHeader,
+                E::FirstVp9FrameMissingSequenceHeader,
+                E::InvalidAdts { frame_index: n },
+                E::InvalidOpusPacket { frame_index: n },
+                E::NonIncreasingDts { prev_dts: x, curr_dts: -x, frame_index: n },
+                E::from(std::io::Error::new(std::io::ErrorKind::Other, "x")),
+            ];
+            let mut total = 0usize;
+            for e in &es {
+                total += format!("{} {:?}", e, e).len();
+                let _ = std::error::Error::source(e);
+            }
+            use muxide::codec::vp9::Vp9Error as V;
+            for e in [V::FrameTooShort, V::InvalidFrameMarker, V::UnsupportedProfile(n as u8), V::InvalidBitDepth(n as u8), V::ParseError("p".into())] {
+                total += format!("{} {:?}", e, e).len();
+            }
+            if total > 0 { "ok".into() } else { "empty".into() }
         }
         "vcodec_str" => {
             let s = String::from_utf8(unhex(t[1])).unwrap_or_default();
